@@ -167,7 +167,10 @@ class NumDecl:
     def setup(self):
         ty = self.ty
         out = []
-        if self.bounds == "expr":
+        if self.bounds == "expr" and getattr(self, "fixed_bounds", None):
+            out.append("let l: %s = %s; let h: %s = %s;  // concrete bound values for this harness" % (ty, self.fixed_bounds[0], ty, self.fixed_bounds[1]))
+            out.append("unsafe { LO = l; HI = h; }")
+        elif self.bounds == "expr":
             out.append("let l: %s = kani::any(); let h: %s = kani::any();" % (ty, ty))
             if is_float(ty):
                 out.append("kani::assume(!l.is_nan() && !h.is_nan());")
